@@ -3,8 +3,8 @@
  * Every second-frame shape of the C01 enumeration is pushed through the three receive entry points; the set of
  * receive-buffer offsets the core READS is recorded per opcode and compared with the offsets whose content
  * the shape alphabet varies.  An offset that is read but never varied means the C01 enumeration does not
- * exercise a field the code depends on: that is a harness error (the alphabet must be extended), never a
- * property verdict. */
+ * exercise a field the code depends on: reported as a cap of the run (exhaustive:false, the alphabet must be
+ * extended), never as a property verdict. */
 #include "../mc/darwin.h"
 #include "../mc/sigma.h"
 #include "../mc/tsan_hooks.h"
@@ -68,7 +68,8 @@ int main(int argc, char **argv) {
     R.evaluations = evals; R.exhaustive = 1; R.wall_s = vf_now_s() - t0;
     vf_extra("read_offset_coverage", "%llu (opcode, offset) pairs read by the core over %d shapes x 3 entry points at MTU %zu; %d not varied by the alphabet", (unsigned long long)nread, NFULL, MTU, uncovered);
     vf_sample("alphabet self-check: receive-buffer offsets read per opcode are a subset of the offsets the C01 shapes vary");
-    if (uncovered) vf_harness_error("C01 alphabet does not vary offsets the core reads:%s", msg);
+    /* not a property verdict and not a reason to distrust the other runs: the coverage statement of C01 is weakened and says so */
+    if (uncovered) { static char cap[1000]; snprintf(cap, sizeof cap, "alphabet self-check: the core reads receive-buffer offsets the C01 shapes do not vary:%s", msg); R.exhaustive = 0; R.cap_hit = cap; }
     vf_write_results();
     return 0;
 }
